@@ -8,8 +8,10 @@ element of every member list.  The order inside a member list after its first el
 model's FIFO order and is not claimed to be Python's (`frontier.pop()` of a set); everything is
 stated up to that order.
 
-Also: kernel-checked witnesses of the defect of `get_qudit_to_qpu_map` / `get_qpu_connectivity`
-(`list(dict.values())` is in insertion order, not indexed by qudit).
+Also (code as fixed in 2c665e0): `get_qudit_to_qpu_map` never raises KeyError and is the documented
+map `qudit ↦ index of its QPU` for all well-formed graphs (`quditToQpuImpl?_eq_spec`,
+`quditToQpuImpl_get`, `qpuOf_eq_iff`), and `get_qpu_connectivity` is the adjacency between the
+QPUs over the remote edges (`qpuConnImpl_spec`, `qpuConnImpl_eq_spec`).
 -/
 namespace BqVerif.Graph
 
@@ -372,76 +374,318 @@ theorem qpuToQudit_unique (g : G) (hwf : g.WF) (remote : List (Nat × Nat)) (v :
     · exact hrel i j hil hjl hlt v (hic ▸ hvc) v (hjc ▸ hj) (ReachLocal.refl v)
     · exact hrel j i hjl hil hlt v (hjc ▸ hj) v (hic ▸ hvc) (ReachLocal.refl v)
 
-/-! ### the defect of `get_qudit_to_qpu_map` / `get_qpu_connectivity` -/
+/-! ### `get_qudit_to_qpu_map` -/
 
-/-- `list(dict.values())` is in insertion order: on the graph `0-2, 1-2` with remote edge `(1,2)`
-the QPUs are `[[0,2],[1]]`; the code returns `[0,0,1]`, the documented map is `[0,1,0]`. -/
-theorem quditToQpu_defect_witness :
-    (G.mk 3 [(0,2),(1,2)]).quditToQpuImpl [(1,2)] = [0,0,1] ∧
-    (G.mk 3 [(0,2),(1,2)]).quditToQpuSpec [(1,2)] = [0,1,0] := by decide
+/-- the QPU index of a qudit: position of the (unique) QPU list containing it -/
+def G.qpuOf (g : G) (remote : List (Nat × Nat)) (q : Nat) : Nat :=
+  (g.qpuToQudit remote).findIdx (·.contains q)
 
-/-- … and the QPU connectivity computed from it is wrong: star with centre 3, remote `(1,3),(2,3)`:
-QPUs `[[0,3],[1],[2]]`, the code gives `[[2],[2],[0,1]]`, correct is `[[1,2],[0],[0]]`. -/
-theorem qpuConn_defect_witness :
-    (G.mk 4 [(0,3),(1,3),(2,3)]).qpuConnImpl [(1,3),(2,3)] ≠
-    (G.mk 4 [(0,3),(1,3),(2,3)]).qpuConnSpec [(1,3),(2,3)] := by decide
-
-theorem qpuConn_defect_values :
-    (G.mk 4 [(0,3),(1,3),(2,3)]).qpuToQudit [(1,3),(2,3)] = [[0,3],[1],[2]] ∧
-    (G.mk 4 [(0,3),(1,3),(2,3)]).qpuConnImpl [(1,3),(2,3)] = [[2],[2],[0,1]] ∧
-    (G.mk 4 [(0,3),(1,3),(2,3)]).qpuConnSpec [(1,3),(2,3)] = [[1,2],[0],[0]] := by decide
-
-/-! ### when the code is right -/
-
-/-- for pairwise disjoint lists, labelling block by block is labelling every listed element by
-the index of the first list containing it -/
-theorem blockLabels_eq_findIdx : ∀ (qs pre : List (List Nat)),
-    (∀ c ∈ pre, ∀ d ∈ qs, ∀ u ∈ d, u ∉ c) →
-    qs.Pairwise (fun c d => ∀ u ∈ d, u ∉ c) →
-    (qs.zipIdx pre.length).flatMap (fun qi => qi.1.map (fun _ => qi.2)) =
-      qs.flatten.map (fun q => (pre ++ qs).findIdx (·.contains q))
-  | [], _, _, _ => by simp
-  | c :: qs, pre, hpre, hpw => by
-    rw [List.pairwise_cons] at hpw
-    rw [List.zipIdx_cons, List.flatMap_cons, List.flatten_cons, List.map_append]
-    have ih := blockLabels_eq_findIdx qs (pre ++ [c]) (by
-      intro c' hc' d hd u hu
-      rw [List.mem_append, List.mem_singleton] at hc'
-      rcases hc' with hc' | hc'
-      · exact hpre c' hc' d (by simp [hd]) u hu
-      · subst hc'; exact hpw.1 d hd u hu) hpw.2
-    rw [List.length_append, List.length_singleton, List.append_assoc, List.singleton_append] at ih
-    rw [ih]
-    congr 1
-    apply List.map_congr_left
-    intro u hu
-    rw [List.findIdx_append]
-    have h1 : pre.findIdx (·.contains u) = pre.length := by
-      apply List.findIdx_eq_length_of_false
-      intro c' hc'
-      simpa using hpre c' hc' c (by simp) u hu
-    rw [h1]
-    simp [List.findIdx_cons, hu]
-
-/-- the list the code returns is the documented map read along the concatenation of the QPUs
-instead of along `0, 1, …, n-1` -/
-theorem quditToQpuImpl_eq (g : G) (hwf : g.WF) (remote : List (Nat × Nat)) :
-    g.quditToQpuImpl remote =
-      (g.qpuToQudit remote).flatten.map (fun q => (g.qpuToQudit remote).findIdx (·.contains q)) := by
+/-- no qudit lies in two different QPU lists -/
+theorem qpuToQudit_idx_unique (g : G) (hwf : g.WF) (remote : List (Nat × Nat)) {i j v : Nat}
+    {c d : List Nat} (hi : (g.qpuToQudit remote)[i]? = some c)
+    (hj : (g.qpuToQudit remote)[j]? = some d) (hc : v ∈ c) (hd : v ∈ d) : i = j := by
   obtain ⟨_, _, _, hdisj, _, _⟩ := qpuToQudit_spec g hwf remote
-  have hpw : (g.qpuToQudit remote).Pairwise (fun c d => ∀ u ∈ d, u ∉ c) :=
-    hdisj.imp (fun {c d} h u hud huc => h u huc u hud (ReachLocal.refl u))
-  have := blockLabels_eq_findIdx (g.qpuToQudit remote) [] (by simp) hpw
-  simpa [G.quditToQpuImpl] using this
+  have hrel := List.pairwise_iff_getElem.1 hdisj
+  obtain ⟨hil, hic⟩ := List.getElem?_eq_some_iff.1 hi
+  obtain ⟨hjl, hjc⟩ := List.getElem?_eq_some_iff.1 hj
+  apply Classical.byContradiction
+  intro hne
+  rcases Nat.lt_or_gt_of_ne hne with hlt | hlt
+  · exact hrel i j hil hjl hlt v (hic ▸ hc) v (hjc ▸ hd) (ReachLocal.refl v)
+  · exact hrel j i hjl hil hlt v (hjc ▸ hd) v (hic ▸ hc) (ReachLocal.refl v)
 
-/-- … hence when the QPUs, concatenated in the order of discovery, list the qudits in increasing order
-(every QPU a contiguous block of qudits, listed increasingly) the code returns the documented map.
-(Sufficient, not necessary: only the block sizes enter `quditToQpuImpl`.) -/
-theorem quditToQpuImpl_eq_spec_of_contiguous (g : G) (hwf : g.WF) (remote : List (Nat × Nat))
-    (hc : (g.qpuToQudit remote).flatten = List.range g.n) :
+/-- `qpuOf q` is the index of a list that contains `q`, for `q < n` -/
+theorem qpuOf_spec (g : G) (hwf : g.WF) (remote : List (Nat × Nat)) (q : Nat) (hq : q < g.n) :
+    ∃ c, (g.qpuToQudit remote)[g.qpuOf remote q]? = some c ∧ q ∈ c := by
+  obtain ⟨hcov, _⟩ := qpuToQudit_spec g hwf remote
+  obtain ⟨c, hc, hqc⟩ := hcov q hq
+  have hex : ∃ x ∈ g.qpuToQudit remote, (fun l : List Nat => l.contains q) x = true :=
+    ⟨c, hc, by simpa using hqc⟩
+  have hlt := List.findIdx_lt_length_of_exists hex
+  refine ⟨(g.qpuToQudit remote)[g.qpuOf remote q]'hlt, ?_, ?_⟩
+  · exact List.getElem?_eq_getElem hlt
+  · have := List.findIdx_getElem (w := hlt)
+    simpa [G.qpuOf] using this
+
+/-- … and the only one -/
+theorem qpuOf_unique (g : G) (hwf : g.WF) (remote : List (Nat × Nat)) (q : Nat) (hq : q < g.n)
+    {i : Nat} {c : List Nat} (hi : (g.qpuToQudit remote)[i]? = some c) (hc : q ∈ c) :
+    i = g.qpuOf remote q := by
+  obtain ⟨d, hd, hqd⟩ := qpuOf_spec g hwf remote q hq
+  exact qpuToQudit_idx_unique g hwf remote hi hd hc hqd
+
+/-- the dict holds `(q, i)` exactly when `q` is in the `i`-th list -/
+theorem mem_qpuDict (qs : List (List Nat)) (q i : Nat) :
+    (q, i) ∈ qs.zipIdx.flatMap (fun qi => qi.1.map (fun q => (q, qi.2))) ↔
+      ∃ c, qs[i]? = some c ∧ q ∈ c := by
+  rw [List.mem_flatMap]
+  constructor
+  · rintro ⟨⟨c, k⟩, hck, hm⟩
+    rw [List.mem_zipIdx_iff_getElem?] at hck
+    simp only [List.mem_map, Prod.mk.injEq] at hm
+    obtain ⟨q', hq', rfl, rfl⟩ := hm
+    exact ⟨c, hck, hq'⟩
+  · rintro ⟨c, hc, hqc⟩
+    refine ⟨(c, i), List.mem_zipIdx_iff_getElem?.2 hc, ?_⟩
+    exact List.mem_map.2 ⟨q, hqc, rfl⟩
+
+theorem mapM_option_eq_some {α β} (f : α → Option β) (h : α → β) :
+    ∀ (l : List α), (∀ x ∈ l, f x = some (h x)) → l.mapM f = some (l.map h)
+  | [], _ => rfl
+  | a :: l, hl => by
+    rw [List.mapM_cons, hl a (by simp), mapM_option_eq_some f h l (fun x hx => hl x (by simp [hx]))]
+    rfl
+
+/-- the dict lookup of a qudit `q < n` succeeds and yields `qpuOf q`, whatever the order of
+insertion -/
+theorem qpuDict_lookup (g : G) (hwf : g.WF) (remote : List (Nat × Nat)) (q : Nat) (hq : q < g.n) :
+    (((g.qpuToQudit remote).zipIdx.flatMap (fun qi => qi.1.map (fun q => (q, qi.2)))).reverse.find?
+      (fun kv => kv.1 == q)).map (·.2) = some (g.qpuOf remote q) := by
+  obtain ⟨c, hc, hqc⟩ := qpuOf_spec g hwf remote q hq
+  cases hf : ((g.qpuToQudit remote).zipIdx.flatMap
+      (fun qi => qi.1.map (fun q => (q, qi.2)))).reverse.find? (fun kv => kv.1 == q) with
+  | none =>
+    rw [List.find?_eq_none] at hf
+    have := hf (q, g.qpuOf remote q)
+      (List.mem_reverse.2 ((mem_qpuDict _ q _).2 ⟨c, hc, hqc⟩))
+    simp at this
+  | some kv =>
+    have hp := List.find?_some hf
+    have hm := List.mem_reverse.1 (List.mem_of_find?_eq_some hf)
+    obtain ⟨k, i⟩ := kv
+    simp only [beq_iff_eq] at hp
+    subst hp
+    obtain ⟨d, hd, hkd⟩ := (mem_qpuDict _ _ _).1 hm
+    simp only [Option.map_some, Option.some.injEq]
+    exact qpuOf_unique g hwf remote _ hq hd hkd
+
+/-- get_qudit_to_qpu_map never raises KeyError and is the documented map, for ALL graphs -/
+theorem quditToQpuImpl?_eq_spec (g : G) (hwf : g.WF) (remote : List (Nat × Nat)) :
+    g.quditToQpuImpl? remote = some (g.quditToQpuSpec remote) := by
+  unfold G.quditToQpuImpl? G.quditToQpuSpec
+  apply mapM_option_eq_some
+  intro q hq
+  exact qpuDict_lookup g hwf remote q (List.mem_range.1 hq)
+
+theorem quditToQpuImpl_eq_spec (g : G) (hwf : g.WF) (remote : List (Nat × Nat)) :
     g.quditToQpuImpl remote = g.quditToQpuSpec remote := by
-  rw [quditToQpuImpl_eq g hwf remote, hc]
+  unfold G.quditToQpuImpl
+  rw [quditToQpuImpl?_eq_spec g hwf remote]
   rfl
+
+theorem quditToQpuSpec_getD (g : G) (remote : List (Nat × Nat)) (q : Nat) (hq : q < g.n) :
+    (g.quditToQpuSpec remote).getD q 0 = g.qpuOf remote q := by
+  unfold G.quditToQpuSpec G.qpuOf
+  simp [List.getD_eq_getElem?_getD, hq]
+
+/-- … i.e. entry q is the index of the QPU that holds q -/
+theorem quditToQpuImpl_get (g : G) (hwf : g.WF) (remote : List (Nat × Nat)) (q : Nat)
+    (hq : q < g.n) :
+    (g.quditToQpuImpl remote).length = g.n ∧
+    (g.quditToQpuImpl remote).getD q 0 < (g.qpuToQudit remote).length ∧
+    q ∈ (g.qpuToQudit remote).getD ((g.quditToQpuImpl remote).getD q 0) [] ∧
+    ∀ i, q ∈ (g.qpuToQudit remote).getD i [] → i = (g.quditToQpuImpl remote).getD q 0 := by
+  rw [quditToQpuImpl_eq_spec g hwf remote, quditToQpuSpec_getD g remote q hq]
+  obtain ⟨c, hc, hqc⟩ := qpuOf_spec g hwf remote q hq
+  refine ⟨by simp [G.quditToQpuSpec], (List.getElem?_eq_some_iff.1 hc).1, ?_, ?_⟩
+  · rw [List.getD_eq_getElem?_getD, hc]
+    exact hqc
+  · intro i hi
+    rw [List.getD_eq_getElem?_getD] at hi
+    cases hd : (g.qpuToQudit remote)[i]? with
+    | none => rw [hd] at hi; simp at hi
+    | some d =>
+      rw [hd] at hi
+      exact qpuOf_unique g hwf remote q hq hd hi
+
+/-- two qudits are in the same QPU iff connected over non-remote edges -/
+theorem qpuOf_eq_iff (g : G) (hwf : g.WF) (remote : List (Nat × Nat)) (a b : Nat)
+    (ha : a < g.n) (hb : b < g.n) :
+    g.qpuOf remote a = g.qpuOf remote b ↔ ReachLocal g remote a b := by
+  obtain ⟨_, _, hcls, _, _, _⟩ := qpuToQudit_spec g hwf remote
+  obtain ⟨c, hc, hac⟩ := qpuOf_spec g hwf remote a ha
+  obtain ⟨d, hd, hbd⟩ := qpuOf_spec g hwf remote b hb
+  constructor
+  · intro h
+    have hdc : d = c := by rw [h, hd] at hc; exact Option.some.inj hc
+    subst hdc
+    exact (hcls d (List.mem_of_getElem? hd) a hac b).1 hbd
+  · intro h
+    have hbc := (hcls c (List.mem_of_getElem? hc) a hac b).2 h
+    exact qpuOf_unique g hwf remote b hb hc hbc
+
+theorem qpuOf_lt (g : G) (hwf : g.WF) (remote : List (Nat × Nat)) (q : Nat) (hq : q < g.n) :
+    g.qpuOf remote q < (g.qpuToQudit remote).length := by
+  obtain ⟨c, hc, _⟩ := qpuOf_spec g hwf remote q hq
+  exact (List.getElem?_eq_some_iff.1 hc).1
+
+/-! ### `get_qpu_connectivity` -/
+
+/-- `qpu_adj[a].add(b)` -/
+def addAdj (adj : List (List Nat)) (a b : Nat) : List (List Nat) :=
+  adj.modify a (fun l => if l.contains b then l else l ++ [b])
+
+theorem length_addAdj (adj : List (List Nat)) (a b : Nat) :
+    (addAdj adj a b).length = adj.length := by simp [addAdj]
+
+theorem getD_addAdj (adj : List (List Nat)) (a b j : Nat) :
+    (addAdj adj a b).getD j [] =
+      if a = j ∧ j < adj.length then
+        (if (adj.getD j []).contains b then adj.getD j [] else adj.getD j [] ++ [b])
+      else adj.getD j [] := by
+  simp only [List.getD_eq_getElem?_getD, addAdj, List.getElem?_modify]
+  cases h : adj[j]? with
+  | none =>
+    have : ¬ j < adj.length := by
+      intro hlt
+      rw [List.getElem?_eq_getElem hlt] at h
+      exact absurd h (by simp)
+    simp [this]
+  | some l =>
+    have : j < adj.length := (List.getElem?_eq_some_iff.1 h).1
+    by_cases haj : a = j <;> simp [haj, this]
+
+theorem mem_addAdj (adj : List (List Nat)) (a b j x : Nat) :
+    x ∈ (addAdj adj a b).getD j [] ↔ x ∈ adj.getD j [] ∨ (a = j ∧ j < adj.length ∧ x = b) := by
+  rw [getD_addAdj]
+  by_cases h : a = j ∧ j < adj.length
+  · rw [if_pos h]
+    by_cases hc : (adj.getD j []).contains b = true
+    · rw [if_pos hc]
+      constructor
+      · exact Or.inl
+      · rintro (h1 | ⟨_, _, rfl⟩)
+        · exact h1
+        · simpa using hc
+    · rw [if_neg hc, List.mem_append, List.mem_singleton]
+      simp [h.1, h.2]
+  · rw [if_neg h]
+    constructor
+    · exact Or.inl
+    · rintro (h1 | ⟨h2, h3, _⟩)
+      · exact h1
+      · exact absurd ⟨h2, h3⟩ h
+
+theorem nodup_addAdj (adj : List (List Nat)) (a b j : Nat) (h : (adj.getD j []).Nodup) :
+    ((addAdj adj a b).getD j []).Nodup := by
+  rw [getD_addAdj]
+  split
+  · split
+    · exact h
+    · rename_i hc
+      rw [List.nodup_append]
+      refine ⟨h, by simp, ?_⟩
+      intro x hx y hy hxy
+      rw [List.mem_singleton] at hy
+      subst hy; subst hxy
+      exact hc (by simpa using hx)
+  · exact h
+
+/-- one remote edge -/
+def connStep (f : Nat → Nat) (adj : List (List Nat)) (e : Nat × Nat) : List (List Nat) :=
+  addAdj (addAdj adj (f e.1) (f e.2)) (f e.2) (f e.1)
+
+theorem qpuConnWith_eq (count : Nat) (q2q : List Nat) (remote : List (Nat × Nat)) :
+    qpuConnWith count q2q remote =
+      remote.foldl (connStep (fun q => q2q.getD q 0)) (List.replicate count []) := rfl
+
+theorem connFold_spec (f : Nat → Nat) : ∀ (remote : List (Nat × Nat)) (adj : List (List Nat)),
+    (remote.foldl (connStep f) adj).length = adj.length ∧
+    (∀ j, (adj.getD j []).Nodup → ((remote.foldl (connStep f) adj).getD j []).Nodup) ∧
+    ∀ j x, x ∈ (remote.foldl (connStep f) adj).getD j [] ↔
+      x ∈ adj.getD j [] ∨ (j < adj.length ∧ ∃ e ∈ remote,
+        (f e.1 = j ∧ f e.2 = x) ∨ (f e.1 = x ∧ f e.2 = j))
+  | [], adj => by simp
+  | e :: remote, adj => by
+    obtain ⟨h1, h2, h3⟩ := connFold_spec f remote (connStep f adj e)
+    have hl : (connStep f adj e).length = adj.length := by
+      simp [connStep, length_addAdj]
+    rw [List.foldl_cons]
+    refine ⟨by rw [h1, hl], ?_, ?_⟩
+    · intro j hj
+      exact h2 j (nodup_addAdj _ _ _ _ (nodup_addAdj _ _ _ _ hj))
+    · intro j x
+      rw [h3, hl]
+      unfold connStep
+      rw [mem_addAdj, mem_addAdj, length_addAdj]
+      simp only [List.mem_cons, exists_eq_or_imp]
+      constructor
+      · rintro ((( h | ⟨ha, hb, hc⟩) | ⟨ha, hb, hc⟩) | ⟨hj, e', he', h⟩)
+        · exact Or.inl h
+        · exact Or.inr ⟨hb, Or.inl (Or.inl ⟨ha, hc.symm⟩)⟩
+        · exact Or.inr ⟨hb, Or.inl (Or.inr ⟨hc.symm, ha⟩)⟩
+        · exact Or.inr ⟨hj, Or.inr ⟨e', he', h⟩⟩
+      · rintro (h | ⟨hj, (⟨ha, hc⟩ | ⟨hc, ha⟩) | ⟨e', he', h⟩⟩)
+        · exact Or.inl (Or.inl (Or.inl h))
+        · exact Or.inl (Or.inl (Or.inr ⟨ha, hj, hc.symm⟩))
+        · exact Or.inl (Or.inr ⟨ha, hj, hc.symm⟩)
+        · exact Or.inr ⟨hj, e', he', h⟩
+
+/-- `qpuConnWith` for any lookup list: `count` rows, duplicate free, row `a < count` holds `b` iff
+some remote edge has the looked-up end points `{a, b}` -/
+theorem qpuConnWith_spec (count : Nat) (q2q : List Nat) (remote : List (Nat × Nat)) :
+    (qpuConnWith count q2q remote).length = count ∧
+    (∀ a, ((qpuConnWith count q2q remote).getD a []).Nodup) ∧
+    ∀ a b, b ∈ (qpuConnWith count q2q remote).getD a [] ↔
+      a < count ∧ ∃ e ∈ remote,
+        (q2q.getD e.1 0 = a ∧ q2q.getD e.2 0 = b) ∨ (q2q.getD e.1 0 = b ∧ q2q.getD e.2 0 = a) := by
+  rw [qpuConnWith_eq]
+  obtain ⟨h1, h2, h3⟩ := connFold_spec (fun q => q2q.getD q 0) remote (List.replicate count [])
+  have h0 : ∀ j, (List.replicate count ([] : List Nat)).getD j [] = [] := by
+    intro j
+    rw [List.getD_eq_getElem?_getD, List.getElem?_replicate]
+    split <;> rfl
+  refine ⟨by simpa using h1, ?_, ?_⟩
+  · intro a
+    exact h2 a (by rw [h0]; simp)
+  · intro a b
+    rw [h3, h0]
+    simp
+
+/-- get_qpu_connectivity = adjacency between QPU classes via remote edges (remote edges are edges
+of g, as the constructor enforces; so their end points are < n) -/
+theorem qpuConnImpl_spec (g : G) (hwf : g.WF) (remote : List (Nat × Nat))
+    (hrem : ∀ e ∈ remote, g.hasEdge e.1 e.2 = true) :
+    (g.qpuConnImpl remote).length = (g.qpuToQudit remote).length ∧
+    (∀ a, ((g.qpuConnImpl remote).getD a []).Nodup) ∧
+    ∀ a b, b ∈ (g.qpuConnImpl remote).getD a [] ↔
+      ∃ e ∈ remote, (g.qpuOf remote e.1 = a ∧ g.qpuOf remote e.2 = b) ∨
+                    (g.qpuOf remote e.1 = b ∧ g.qpuOf remote e.2 = a) := by
+  unfold G.qpuConnImpl
+  obtain ⟨h1, h2, h3⟩ := qpuConnWith_spec (g.qpuToQudit remote).length (g.quditToQpuImpl remote) remote
+  refine ⟨h1, h2, ?_⟩
+  intro a b
+  rw [h3, quditToQpuImpl_eq_spec g hwf remote]
+  have hlook : ∀ e ∈ remote,
+      (g.quditToQpuSpec remote).getD e.1 0 = g.qpuOf remote e.1 ∧
+      (g.quditToQpuSpec remote).getD e.2 0 = g.qpuOf remote e.2 ∧
+      g.qpuOf remote e.1 < (g.qpuToQudit remote).length ∧
+      g.qpuOf remote e.2 < (g.qpuToQudit remote).length := by
+    intro e he
+    obtain ⟨_, hl1, hl2⟩ := g.hasEdge_lt hwf (hrem e he)
+    exact ⟨quditToQpuSpec_getD g remote _ hl1, quditToQpuSpec_getD g remote _ hl2,
+      qpuOf_lt g hwf remote _ hl1, qpuOf_lt g hwf remote _ hl2⟩
+  constructor
+  · rintro ⟨_, e, he, h⟩
+    obtain ⟨e1, e2, _, _⟩ := hlook e he
+    rw [e1, e2] at h
+    exact ⟨e, he, h⟩
+  · rintro ⟨e, he, h⟩
+    obtain ⟨e1, e2, l1, l2⟩ := hlook e he
+    refine ⟨?_, e, he, by rw [e1, e2]; exact h⟩
+    rcases h with ⟨ha, _⟩ | ⟨_, ha⟩
+    · rw [← ha]; exact l1
+    · rw [← ha]; exact l2
+
+theorem qpuConnImpl_eq_spec (g : G) (hwf : g.WF) (remote : List (Nat × Nat)) :
+    g.qpuConnImpl remote = g.qpuConnSpec remote := by
+  unfold G.qpuConnImpl G.qpuConnSpec
+  rw [quditToQpuImpl_eq_spec g hwf remote]
+
+/-- the former defect reproducers now give the documented values -/
+theorem quditToQpu_fixed_examples :
+    (G.mk 3 [(0,2),(1,2)]).quditToQpuImpl [(1,2)] = [0,1,0] ∧
+    (G.mk 4 [(0,3),(1,3),(2,3)]).qpuConnImpl [(1,3),(2,3)] = [[1,2],[0],[0]] := by decide
 
 /-! ### non-vacuity -/
 
@@ -458,21 +702,33 @@ example : ReachLocal ⟨4, [(0,1),(1,2),(2,3)]⟩ [(1,2)] 2 3 ∧
     (by decide)).2.2
   exact ⟨(h 3).1 (by decide), fun hr => absurd ((h 1).2 hr) (by decide)⟩
 
-/-- the contiguity hypothesis is satisfiable (and there the two maps agree) … -/
-example : ((⟨4, [(0,1),(1,2),(2,3)]⟩ : G).qpuToQudit [(1,2)]).flatten = List.range 4 ∧
-    (⟨4, [(0,1),(1,2),(2,3)]⟩ : G).quditToQpuImpl [(1,2)] = [0,0,1,1] := by decide
+/-- … and the same through `qpuOf_eq_iff`: both directions are exercised -/
+example : ReachLocal ⟨4, [(0,1),(1,2),(2,3)]⟩ [(1,2)] 2 3 ∧
+    ¬ ReachLocal ⟨4, [(0,1),(1,2),(2,3)]⟩ [(1,2)] 2 1 := by
+  have hwf : (⟨4, [(0,1),(1,2),(2,3)]⟩ : G).WF := by unfold G.WF; decide
+  exact ⟨(qpuOf_eq_iff _ hwf [(1,2)] 2 3 (by decide) (by decide)).1 (by decide),
+    fun hr => absurd ((qpuOf_eq_iff _ hwf [(1,2)] 2 1 (by decide) (by decide)).2 hr) (by decide)⟩
 
-/-- … and it is not necessary: QPU `{0,1,2}` discovered as `[0,2,1]`, both maps are `[0,0,0]` -/
-example : ((⟨3, [(0,2),(1,2)]⟩ : G).qpuToQudit []).flatten = [0,2,1] ∧
-    (⟨3, [(0,2),(1,2)]⟩ : G).quditToQpuImpl [] = (⟨3, [(0,2),(1,2)]⟩ : G).quditToQpuSpec [] := by
-  decide
+/-- the hypotheses of `qpuConnImpl_spec` hold for the star with two remote edges; the QPU lists are
+not in qudit order there (`[[0,3],[1],[2]]`: the dict is filled 0,3,1,2) -/
+example : (⟨4, [(0,3),(1,3),(2,3)]⟩ : G).WF ∧
+    (∀ e ∈ [(1,3),(2,3)], (⟨4, [(0,3),(1,3),(2,3)]⟩ : G).hasEdge e.1 e.2 = true) ∧
+    (⟨4, [(0,3),(1,3),(2,3)]⟩ : G).qpuToQudit [(1,3),(2,3)] = [[0,3],[1],[2]] ∧
+    (⟨4, [(0,3),(1,3),(2,3)]⟩ : G).quditToQpuImpl? [(1,3),(2,3)] = some [0,1,2,0] := by
+  unfold G.WF; decide
 
-/-- `remote` need not be normalised or consist of edges for the theorems; a pair that is not
-normalised is simply never matched (`_remote_edges` is normalised by the constructor) -/
+/-- the hypothesis `hrem` of `qpuConnImpl_spec` cannot be dropped: for an end point `≥ n` the model
+looks up the default 0 (Python: IndexError), `qpuOf` gives the number of QPUs -/
+example : (⟨2, [(0,1)]⟩ : G).qpuConnImpl [(0,5)] = [[0]] ∧
+    (⟨2, [(0,1)]⟩ : G).qpuOf [(0,5)] 5 = 1 := by decide
+
+/-- `remote` need not be normalised or consist of edges for the theorems on the maps; a pair that
+is not normalised is simply never matched (`_remote_edges` is normalised by the constructor) -/
 example : (⟨2, [(0,1)]⟩ : G).qpuToQudit [(1,0)] = [[0,1]] ∧
     (⟨2, [(0,1)]⟩ : G).qpuToQudit [(0,1)] = [[0],[1]] := by decide
 
-/-- `n = 0`: no QPU -/
-example : (⟨0, []⟩ : G).qpuToQudit [] = [] := by decide
+/-- `n = 0`: no QPU, empty maps -/
+example : (⟨0, []⟩ : G).qpuToQudit [] = [] ∧ (⟨0, []⟩ : G).quditToQpuImpl? [] = some [] ∧
+    (⟨0, []⟩ : G).qpuConnImpl [] = [] := by decide
 
 end BqVerif.Graph
